@@ -564,6 +564,47 @@ def _hyp_worker(ctx, arg):
         core.run_hypothesis(ctx, char_case(), judge_case, n, shard=shard, salt=3)
 
 
+def fuzz_campaign(ctx, procs, runs):
+    """Coverage-guided part (thorough tier): atheris subprocesses with the C01 oracle inside the target."""
+    import os
+    import pickle
+    import shutil
+    import subprocess
+    import sys
+    import tempfile
+
+    try:
+        import atheris  # noqa: F401  pylint: disable=unused-import,import-outside-toplevel
+    except Exception as e:  # pylint: disable=broad-except
+        ctx.notes.append(f"coverage-guided campaign skipped: atheris not importable ({type(e).__name__}); run tools/setup.sh")
+        return
+    work = tempfile.mkdtemp(prefix="c01fuzz.", dir=os.path.join(core.HERE, "evidence"))
+    try:
+        jobs = []
+        for k in range(procs):
+            out = os.path.join(work, f"part{k}.pkl")
+            corpus = os.path.join(work, f"corpus{k}")
+            os.makedirs(corpus)
+            if k % 2:  # half of the campaigns start from a few valid sentences, half from an empty corpus
+                for i, seed_text in enumerate([b"\x00\x0d\x01", b"\x00\x0d\x15\x01\x0e\x02\x16", b"\x00\x0d\x23\x15\x01\x16"]):
+                    with open(os.path.join(corpus, f"s{i}"), "wb") as fh:
+                        fh.write(seed_text)
+            jobs.append((out, subprocess.Popen([sys.executable, "-W", "ignore", "-m", "vf.fuzz_c01", out, str(ctx.seed * 100 + k + 1), str(runs), corpus],
+                                               stdout=subprocess.DEVNULL, stderr=subprocess.DEVNULL, cwd=core.HERE)))
+        done = 0
+        for out, proc in jobs:
+            proc.wait()
+            if os.path.exists(out):
+                with open(out, "rb") as fh:
+                    part = pickle.load(fh)
+                part.setdefault("nontrivial_enumerated", 0)
+                ctx.merge(part)
+                done += 1
+        ctx.notes.append(f"coverage-guided campaign: {done}/{procs} atheris processes x {runs} executions, token-table decoding, oracle inside the target")
+    finally:
+        shutil.rmtree(work, ignore_errors=True)
+
+
 def run(ctx):
     quick = ctx.tier == "quick"
     ns = core.NPROC
@@ -582,3 +623,5 @@ def run(ctx):
         which = ["sentence", "nearmiss", "chars", "sentence"][k % 4]
         hyp.append((which, k, per * (3 if which == "chars" else 1), 6 if k < 8 else 16))
     ctx.parallel(_hyp_worker, hyp)
+    if not quick:
+        fuzz_campaign(ctx, 8, 150000)
